@@ -32,6 +32,7 @@
 import MdProofs.Lemmas.CacheFs
 import MdProofs.Lemmas.CacheFsToy
 import MdProofs.Lemmas.CacheFsReal
+import MdProofs.Lemmas.CacheFsFile
 namespace MdModel.CacheFs
 
 variable {P : ParserModel}
@@ -497,6 +498,238 @@ theorem shortLines_of_length (e : Bytes) (h : e.length < 81920) : Real.shortLine
   show seg.length < 163840 / 2
   omega
 
+/-! ### the opaque download path (`locate_file` → `fetch_lookup`): binaries and extra debug files
+
+  No parser is involved: an entry must be exactly the bytes of a completely received response (no
+  URL note), under the same temp-file discipline. Theorems about `MdModel.CacheFs.File`, for ANY
+  events, drop point and interleaving of calls. -/
+namespace File
+
+/-- An entry made by an opaque download: some call for that path ended as `fetched rx u` — which
+    only the END of a response produces (`File.step_cache`), `rx` being all the chunks of that
+    response — at one of its URLs, and the entry is exactly those bytes. -/
+def FileEntry (w : World) (p : Path) (n : Node) : Prop :=
+  ∃ r rx u, (r, Phase.done (.fetched rx u)) ∈ w.tasks ∧ r.path = p ∧ u ∈ r.urls ∧ n = .file (bodyOf rx)
+
+def WorldInv (init : Cache) (w : World) : Prop :=
+  (∀ t ∈ w.tasks, PhaseInv t.1 t.2) ∧
+  (∀ p n, init p = some n → w.cache p = some n) ∧
+  (∀ p n, w.cache p = some n → init p = some n ∨ FileEntry w p n)
+
+private theorem mem_set_of_mem {α : Type} {l : List α} {i : Nat} {x y y' : α} (h : x ∈ l) (hi : l[i]? = some y) :
+    x ∈ l.set i y' ∨ x = y := by
+  induction l generalizing i with
+  | nil => cases h
+  | cons a as ih =>
+    cases i with
+    | zero =>
+      simp at hi
+      rcases List.mem_cons.mp h with h1 | h1
+      · right; rw [h1, hi]
+      · left; simp [h1]
+    | succ i =>
+      simp at hi
+      rcases List.mem_cons.mp h with h1 | h1
+      · left; simp [h1]
+      · rcases ih h1 hi with h2 | h2
+        · left; simp [h2]
+        · right; exact h2
+
+private theorem World.step_inv (init : Cache) (w : World) (i : Nat) (e : Ev) (h : WorldInv init w) :
+    WorldInv init (w.step i e) := by
+  unfold World.step
+  cases hi : w.tasks[i]? with
+  | none => exact h
+  | some tk =>
+    obtain ⟨req, ph⟩ := tk
+    have hmem : (req, ph) ∈ w.tasks := List.mem_of_getElem? hi
+    have hph : PhaseInv req ph := h.1 _ hmem
+    -- finished calls stay in the task list
+    have hkeep : ∀ p n, FileEntry w p n →
+        FileEntry { cache := (File.step w.cache req ph e).1, tasks := w.tasks.set i (req, (File.step w.cache req ph e).2) } p n := by
+      intro p n ⟨r, rx, u, hm, h1, h2, h3⟩
+      refine ⟨r, rx, u, ?_, h1, h2, h3⟩
+      rcases mem_set_of_mem (y' := (req, (File.step w.cache req ph e).2)) hm hi with h4 | h4
+      · exact h4
+      · have : req = r ∧ ph = .done (.fetched rx u) := by cases h4; exact ⟨rfl, rfl⟩
+        obtain ⟨rfl, rfl⟩ := this
+        rw [step_done]
+        exact List.mem_set (List.getElem?_eq_some_iff.mp hi).1 _
+    refine ⟨?_, ?_, ?_⟩
+    · intro t ht
+      rcases List.mem_or_eq_of_mem_set ht with h1 | h1
+      · exact h.1 t h1
+      · subst h1; exact File.step_inv _ _ _ _ hph
+    · intro p n hn
+      exact step_keeps w.cache req ph e hph p n (h.2.1 p n hn)
+    · intro p n hn
+      simp only [] at hn
+      rcases step_cache w.cache req ph e hph with hc | ⟨u, rest, rx, io, _, _, hu, hfree, hd, hset⟩
+      · rw [hc] at hn
+        rcases h.2.2 p n hn with h1 | h1
+        · exact Or.inl h1
+        · exact Or.inr (hkeep p n h1)
+      · rw [hset] at hn
+        unfold Cache.set at hn
+        by_cases hp : p = req.path
+        · simp only [hp, if_true] at hn
+          right
+          refine ⟨req, rx, u, ?_, hp.symm, hu, by cases hn; rfl⟩
+          show (req, Phase.done (.fetched rx u)) ∈ w.tasks.set i (req, (File.step w.cache req ph e).2)
+          rw [hd]
+          exact List.mem_set (List.getElem?_eq_some_iff.mp hi).1 _
+        · simp only [hp, if_false] at hn
+          rcases h.2.2 p n hn with h1 | h1
+          · exact Or.inl h1
+          · exact Or.inr (hkeep p n h1)
+
+private theorem World.run_inv (init : Cache) (w : World) (evs : List (Nat × Ev)) (h : WorldInv init w) :
+    WorldInv init (w.run evs) := by
+  induction evs generalizing w with
+  | nil => exact h
+  | cons x xs ih =>
+    obtain ⟨i, e⟩ := x
+    exact ih _ (World.step_inv init w i e h)
+
+/-- **file_cache_inv** — "a file appears at a cache path only after the whole [file] was
+    downloaded": start any number of `locate_file` calls on any cache `c0`; after ANY interleaved
+    event sequence every entry of the cache is one `c0` already had, or exactly the bytes of a
+    response that was received completely (the call ended as `fetched`), for that path, at one of
+    the call's URLs — with no note appended; and everything `c0` had is still there, untouched
+    (`fetch_lookup` has no `remove_file`; `persist_noclobber` never replaces). -/
+theorem file_cache_inv (c0 : Cache) (reqs : List Req) (evs : List (Nat × Ev)) :
+    let w := (World.mk c0 (reqs.map fun r => (r, .start))).run evs
+    (∀ p n, c0 p = some n → w.cache p = some n) ∧
+    (∀ p n, w.cache p = some n → c0 p = some n ∨ FileEntry w p n) := by
+  intro w
+  have h0 : WorldInv c0 (World.mk c0 (reqs.map fun r => (r, .start))) := by
+    refine ⟨?_, fun _ _ h => h, fun _ _ h => Or.inl h⟩
+    intro t ht
+    obtain ⟨r, _, rfl⟩ := List.mem_map.mp ht
+    trivial
+  exact (World.run_inv c0 _ evs h0).2
+
+/-- **file_failure_leaves_nothing** — a call that does not end as `fetched` (error status, network
+    error, body shorter than announced, `create_cache_file` or a write failing, the name being
+    taken, drop at any point, still in flight) leaves the cache literally unchanged. -/
+theorem file_failure_leaves_nothing (c : Cache) (req : Req) (ph : Phase) (hph : PhaseInv req ph)
+    (es : List Ev) (hfail : ∀ rx u, (runTask c req ph es).2 ≠ .done (.fetched rx u)) :
+    (runTask c req ph es).1 = c := by
+  induction es generalizing c ph with
+  | nil => rfl
+  | cons e es ih =>
+    simp only [runTask] at hfail ⊢
+    rcases step_cache c req ph e hph with hc | ⟨u, rest, rx, io, _, _, _, _, hd, _⟩
+    · have := ih (step c req ph e).1 (step c req ph e).2 (File.step_inv c req ph e hph) hfail
+      rw [this, hc]
+    · exfalso
+      apply hfail rx u
+      rw [hd, runTask_done]
+
+/-- **file_fetched_entry** — a call that ends as `fetched rx u` has put exactly the received bytes at
+    its path, which was free, and a later network-less lookup finds that file. -/
+theorem file_fetched_entry (c : Cache) (req : Req) (es : List Ev) (rx : List Bytes) (u : Url)
+    (hrun : (runTask c req .start es).2 = .done (.fetched rx u)) :
+    c req.path = none ∧ (runTask c req .start es).1 = c.set req.path (some (.file (bodyOf rx))) ∧
+    lookupLocal (runTask c req .start es).1 { path := req.path, localHit := none, urls := [] } = some (bodyOf rx) := by
+  have key : ∀ (es : List Ev) (c0 : Cache) (ph : Phase), PhaseInv req ph → ph ≠ .done (.fetched rx u) →
+      (runTask c0 req ph es).2 = .done (.fetched rx u) →
+      c0 req.path = none ∧ (runTask c0 req ph es).1 = c0.set req.path (some (.file (bodyOf rx))) := by
+    intro es
+    induction es with
+    | nil => intro c0 ph _ hne hd; exact absurd hd hne
+    | cons e es ih =>
+      intro c0 ph hph hne hd
+      simp only [runTask] at hd ⊢
+      rcases step_cache c0 req ph e hph with hc | ⟨u', rest, rx', io, _, _, _, hfree, hd', hset⟩
+      · by_cases hdone : (step c0 req ph e).2 = .done (.fetched rx u)
+        · -- the step produced the result without touching the cache: impossible
+          exfalso
+          cases ph with
+          | done r => rw [step_done] at hdone; exact hne (by cases hdone; rfl)
+          | dropped => rw [step_dropped] at hdone; cases hdone
+          | start =>
+            cases e <;> simp [step] at hdone
+            · cases hl : lookupLocal c0 req <;> simp [hl] at hdone
+              cases hu : req.urls <;> simp [hu, nextUrl] at hdone
+          | awaitStatus u0 rest0 =>
+            cases e <;> simp [step] at hdone
+            · split at hdone
+              · cases rest0 <;> simp [nextUrl] at hdone
+              · split at hdone
+                · simp at hdone
+                · cases rest0 <;> simp [nextUrl] at hdone
+            · cases rest0 <;> simp [nextUrl] at hdone
+          | streaming u0 rest0 temp0 rx0 =>
+            cases e <;> simp [step] at hdone
+            · split at hdone
+              · simp at hdone
+              · cases rest0 <;> simp [nextUrl] at hdone
+            · -- eof with an unchanged cache: the fetch failed
+              have hc' := hc
+              simp only [step] at hc' hdone
+              cases hcp : c0 req.path with
+              | some n => simp [hcp] at hdone; cases rest0 <;> simp [nextUrl] at hdone
+              | none =>
+                simp only [hcp] at hc' hdone
+                split at hdone
+                · -- persistOk: the cache did change
+                  rename_i hpo
+                  simp only [hpo, if_true] at hc'
+                  have := congrFun hc' req.path
+                  simp [Cache.set, hcp] at this
+                · cases rest0 <;> simp [nextUrl] at hdone
+            · cases rest0 <;> simp [nextUrl] at hdone
+        · have := ih (step c0 req ph e).1 (step c0 req ph e).2 (File.step_inv c0 req ph e hph) hdone hd
+          rw [hc] at this ⊢
+          exact this
+      · rw [hd', runTask_done] at hd ⊢
+        have : rx' = rx ∧ u' = u := by simpa using hd
+        obtain ⟨rfl, rfl⟩ := this
+        exact ⟨hfree, hset⟩
+  obtain ⟨h1, h2⟩ := key es c .start trivial (by simp) hrun
+  refine ⟨h1, h2, ?_⟩
+  rw [h2]
+  simp [lookupLocal, Cache.set]
+
+/-- the future has completed or has been dropped -/
+def Phase.finished : Phase → Prop
+  | .done _ => True
+  | .dropped => True
+  | _ => False
+
+/-- **file_no_stray_temp** — once every call has completed or has been dropped the tmp directory is
+    empty; and dropping a call after ANY events leaves no temp file and does not touch the cache. -/
+theorem file_no_stray_temp (w : World) (h : ∀ t ∈ w.tasks, t.2.finished) : w.liveTemps = [] := by
+  unfold World.liveTemps
+  rw [List.filterMap_eq_nil_iff]
+  intro t ht
+  have := h t ht
+  cases hp : t.2 <;> simp [hp, Phase.finished] at this <;> rfl
+
+theorem file_no_stray_temp_after_drop (c : Cache) (req : Req) (ph : Phase) :
+    (step c req ph .drop).2.temp = none ∧ (step c req ph .drop).2.finished ∧ (step c req ph .drop).1 = c := by
+  cases ph <;> simp [step, Phase.temp, Phase.finished]
+
+/-- **file_temp_is_body** — a live temp file holds exactly the chunks received so far of the response
+    being downloaded: never anything that is not part of the file. -/
+theorem file_temp_is_body (c : Cache) (req : Req) (es : List Ev) (t : Bytes)
+    (h : (runTask c req .start es).2.temp = some t) :
+    ∃ u rest rx, (runTask c req .start es).2 = .streaming u rest t rx ∧ t = bodyOf rx := by
+  have hinv := runTask_inv c req .start es trivial
+  cases hph : (runTask c req .start es).2 with
+  | streaming u rest temp rx =>
+    rw [hph] at hinv h
+    have : temp = t := by simpa [Phase.temp] using h
+    subst this
+    exact ⟨u, rest, rx, rfl, hinv.2⟩
+  | start => rw [hph] at h; simp [Phase.temp] at h
+  | awaitStatus _ _ => rw [hph] at h; simp [Phase.temp] at h
+  | done _ => rw [hph] at h; simp [Phase.temp] at h
+  | dropped => rw [hph] at h; simp [Phase.temp] at h
+
+end File
+
 /-! ### the hypotheses are inhabited, and concrete runs -/
 
 /-- the parser instance the compiled model runs satisfies the three laws -/
@@ -648,6 +881,47 @@ example : (Real.feed Real.init (asc "MODULE Linux x86 ABC a\n!garbage\n")).isNon
 example : (match Real.feed Real.init (asc "MODULE Linux x86 ABC a\nPUB") with
     | some (s, cb) => cb == asc "MODULE Linux x86 ABC a\n" && (Real.finish s).isNone
     | none => false) = true := by decide
+
+/-! #### the opaque download path on concrete runs -/
+
+private def binReq : Req := { path := "a.pdb/ID/a.dll", localHit := none, urls := [url0, url1] }
+private def f1 : Bytes := [0x4d, 0x5a, 0x90, 0x00]
+private def f2 : Bytes := [0x03, 0x00, 0x0a]
+
+/-- success: the entry is exactly the received bytes (no note) -/
+example : File.runTask empty binReq .start [.lookup, .status 200 true, .chunk f1 true, .chunk f2 true, .eof okIo]
+    = (empty.set "a.pdb/ID/a.dll" (some (.file (f1 ++ f2))), .done (.fetched [f2, f1] url0)) := by
+  have : (File.runTask empty binReq .start [.lookup, .status 200 true, .chunk f1 true, .chunk f2 true, .eof okIo]).2
+      = .done (.fetched [f2, f1] url0) := by decide
+  obtain ⟨_, h2, _⟩ := File.file_fetched_entry empty binReq _ _ _ this
+  exact Prod.ext h2 this
+
+/-- a response cut short, then a 404 at the second server: nothing is cached, no temp file -/
+example : (File.runTask empty binReq .start [.lookup, .status 200 true, .chunk f1 true, .netError, .status 404 true]).2
+    = .done .notFound := by decide
+example : (File.runTask empty binReq .start [.lookup, .status 200 true, .chunk f1 true, .netError, .status 404 true]).1
+    "a.pdb/ID/a.dll" = none := by decide
+
+/-- a failing write ENDS this fetch (unlike the symbol path, which only gives up on caching): the
+    second server is asked, and its complete response is what gets cached -/
+example : (File.runTask empty binReq .start
+      [.lookup, .status 200 true, .chunk f1 false, .chunk f2 true, .status 200 true, .chunk f2 true, .eof okIo]).2
+    = .done (.fetched [f2] url1) := by decide
+
+/-- a directory (or anything else) at the name: `persist_noclobber` fails, the entry is never replaced -/
+example : (File.runTask (fun q => if q = "a.pdb/ID/a.dll" then some .dir else none) binReq .start
+      [.lookup, .status 200 true, .chunk f1 true, .eof okIo, .status 200 true, .chunk f1 true, .eof okIo]).2
+    = .done .notFound := by decide
+
+/-- dropped mid-body: no temp file, cache untouched -/
+example : File.runTask empty binReq .start [.lookup, .status 200 true, .chunk f1 true, .drop, .chunk f2 true, .eof okIo]
+    = (empty, .dropped) := by
+  have hd : (File.runTask empty binReq .start
+      [.lookup, .status 200 true, .chunk f1 true, .drop, .chunk f2 true, .eof okIo]).2 = .dropped := by decide
+  have h := File.file_failure_leaves_nothing empty binReq .start trivial
+    [.lookup, .status 200 true, .chunk f1 true, .drop, .chunk f2 true, .eof okIo]
+    (by intro rx u h; rw [hd] at h; cases h)
+  exact Prod.ext h hd
 
 end examples
 
